@@ -328,8 +328,8 @@ KindTab ==
                 "uint64", "sint64", "real32", "real64"},
         clss |-> {"dec", "neg", "hex", "inf", "ninf", "nan", "e999", "oor",
                  "empty", "ws", "frac", "alpha", "plus", "usc", "udig",
-                 "long", "junk", "big", "negbig", "hexbig", "hexlong",
-                 "fracbig", "expbig", "expneg"},
+                 "long", "junk", "big", "hexbig", "hexlong", "fracbig",
+                 "expneg"},
         shapes |-> Shapes]
   @@ "v_shape" :> [stage |-> "value",
         sites |-> {"prop", "proparr", "qual", "qdval", "retval",
@@ -398,7 +398,7 @@ Applicable(shape, d, hasErr) ==
   /\ IF d.k = "o_pv" THEN PvApplicable(shape, d)
      ELSE d.site = "" \/ d.site \in ShapeSites[shape]
                      \/ (hasErr /\ d.site \in ErrorSites)
-  /\ d.k \in {"o_irv", "o_struct"} => shape \notin {"method", "export"}
+  /\ d.k \in {"o_irv", "o_struct"} => shape # "method"   \* there: m_misc
 
 WellFormedCell(shape, defs) ==
   /\ shape \in Shapes
